@@ -217,6 +217,13 @@ SelectUnique == /\ pc = "ugpage" /\ todo = {}
                 /\ UNCHANGED <<nodes, assoc, hashes, pendN, pendR, minTs, maxTs, B, buf, run, flags, fed, first, pre,
                                todo, out, ans, files, ingested, tid>>
 
+\* instead of the unique-graph selection the caller supplies an arbitrary name -> trace-id filter (stream_data's
+\* documented parameter); only used in trace mode
+SupplyFilter(f) == /\ pc = "ug"
+                   /\ sel' = f /\ pc' = "stream"
+                   /\ UNCHANGED <<nodes, assoc, hashes, pendN, pendR, minTs, maxTs, B, buf, run, flags, fed, first, pre, todo,
+                                  out, ans, files, ingested, tid>>
+
 (* ---------------- streaming ---------------- *)
 \* rows filtered by (name, job) pairs, ordered by (name, job), grouped by name then by job
 Streamed == LET rows == FilterRows(nodes, sel)
@@ -288,6 +295,7 @@ TraceStep ==
            [] e.op = "clean2" -> RemoveOutsideWindow
            [] e.op = "clean3" -> UpdateJobNames
            [] e.op = "ug"     -> UgStart
+           [] e.op = "filter" -> SupplyFilter(e.sel)
            [] e.op = "stream" -> Stream
            [] e.op = "end"    -> EndRun
            [] OTHER -> FALSE
